@@ -159,7 +159,10 @@ def main(argv=None) -> int:
         samples.extend(m["samples"][: max(2, 20 // max(1, len(names)))])
         for f in m["failures"]:
             path = core.write_replay(prop, f)
-            rel = str(path.relative_to(core.VERIF_DIR))
+            try:
+                rel = str(path.relative_to(core.VERIF_DIR))
+            except ValueError:
+                rel = str(path)
             lines.append(f"VIOLATION property={prop} replay={rel}")
             print(f"  claim {n} bucket {f['bucket']}: {f['message'][:600]}")
             violations += 1
